@@ -6,7 +6,8 @@ import json, os, shutil, subprocess, sys, tempfile
 CHECKS = {"R1_receiver_ack_helper": ["C01", "C02", "C03", "C04", "C05", "C06", "C07", "C10", "C12"],
           "R2_scheduler_kicker": ["C09", "C10", "C11", "C14", "C15", "C16"],
           "R3_procman_retry": ["C11", "C17", "C18"],
-          "R4_serialization_params": ["C08", "C19", "C20"]}
+          "R4_serialization_params": ["C08", "C19", "C20"],
+          "R5_prefetch_no_lookahead": ["C01", "C03", "C04", "C05"]}
 
 def sh(cmd):
     return subprocess.run(cmd, shell=True, capture_output=True, text=True)
